@@ -28,6 +28,8 @@ SCEN = {
     "late-join": [("a", [], None, False), ("c", [], None, False), ("b", [0, 1], None, True)],
     # two tasks with the same name alive in one pool (q and q#2 are both called q): one is skipped / cancelled / finishes while the other holds a core
     "twins": [("p", [], None, False), ("q", [0], None, False), ("q#2", [], None, False), ("r", [], None, False)],
+    # g is a grouping target (blank script) between a and c
+    "blank": [("a", [], None, False), ("g!e", [0], None, False), ("c", [1], None, False)],
     "one": [("a", [], None, False)],
     "one-tl": [("a", [], 5, False), ("b", [], None, False)],
 }
